@@ -5,7 +5,8 @@
 (* also counts as having the extended class.                                    *)
 EXTENDS Selectors, TLC, Json
 
-CONSTANTS MaxRules, MaxExtends, SelMenu, Targets
+CONSTANTS MaxRules, MaxExtends, SelMenu, Targets,
+          MediaMenu     \* media contexts a rule may be wrapped in ("" = top level)
 
 VARIABLES rules, done
 vars == <<rules, done>>
@@ -40,19 +41,19 @@ HasNotSel(sl) == \E i \in 1..Len(sl) : \E j \in 1..Len(sl[i]) : HasNotSelCmp(sl[
 
 Init == rules = <<>> /\ done = FALSE
 NExt == Cardinality({i \in 1..Len(rules) : rules[i].ext # ""})
-AddRule(name, t, opt) ==
+AddRule(name, t, opt, md) ==
   /\ ~done /\ Len(rules) < MaxRules
   /\ (t # "" => NExt < MaxExtends)
   /\ (t = "" => ~opt)
   /\ (opt => t = ".zz")
   /\ (t # "" => ~HasNotSel(Sel(name)))      \* an extender with :not() makes crediting non-monotone (paradoxical sheets): not generated                      \* !optional is only interesting where the target may be missing
-  /\ rules' = Append(rules, [name |-> name, ext |-> t, optional |-> opt]) /\ UNCHANGED done
+  /\ rules' = Append(rules, [name |-> name, ext |-> t, optional |-> opt, media |-> md]) /\ UNCHANGED done
 Finish == ~done /\ NExt > 0 /\ done' = TRUE /\ UNCHANGED rules
-Next == (\E n \in SelMenu, t \in Targets \cup {""}, o \in BOOLEAN : AddRule(n, t, o)) \/ Finish
+Next == (\E n \in SelMenu, t \in Targets \cup {""}, o \in BOOLEAN, md \in MediaMenu : AddRule(n, t, o, md)) \/ Finish
 Spec == Init /\ [][Next]_vars
 
 Exts == LET idx == SelectSeq([i \in 1..Len(rules) |-> i], LAMBDA i : rules[i].ext # "")
-        IN [k \in 1..Len(idx) |-> [extender |-> Sel(rules[idx[k]].name), target |-> TargetClass(rules[idx[k]].ext)]]
+        IN [k \in 1..Len(idx) |-> [extender |-> Sel(rules[idx[k]].name), target |-> TargetClass(rules[idx[k]].ext), media |-> rules[idx[k]].media]]
 \* does the sheet mention the target (in any rule's selector, at any depth)?  Only checked for top-level classes here.
 RECURSIVE HasClass(_, _)
 HasClassCmp(c, k) == (\E i \in 1..Len(c.cls) : c.cls[i] = k)
@@ -60,15 +61,19 @@ HasClassCmp(c, k) == (\E i \in 1..Len(c.cls) : c.cls[i] = k)
 HasClass(sl, k) == \E i \in 1..Len(sl) : \E j \in 1..Len(sl[i]) : HasClassCmp(sl[i][j].cmp, k)
 Mentions(k) == \E i \in 1..Len(rules) : HasClass(Sel(rules[i].name), k)
 MissingTarget == \E i \in 1..Len(rules) : rules[i].ext # "" /\ ~rules[i].optional /\ ~Mentions(TargetClass(rules[i].ext))
+\* an @extend declared inside @media may only reach rules of the same @media block: a rule elsewhere that mentions the
+\* target makes the sheet an error ("You may not @extend selectors across media queries"); a top-level @extend reaches everything
+CrossMedia == \E i \in 1..Len(rules) : rules[i].ext # "" /\ rules[i].media # "" /\
+                \E j \in 1..Len(rules) : rules[j].media # rules[i].media /\ HasClass(Sel(rules[j].name), TargetClass(rules[i].ext))
 CompoundOnly == \A i \in 1..Len(rules) : rules[i].ext # "" => \A j \in 1..Len(Sel(rules[i].name)) : Len(Sel(rules[i].name)[j]) = 1
 
 \* model-level: crediting only ever adds classes (so a selector without :not keeps everything it matched - the first law)
 CreditMonotone == done => \A dom \in {d \in Doms : Len(d) <= 2} : \A n \in 1..Len(dom) :
                      Native(dom)[n] \subseteq Credit(dom, Exts, 4)[n]
 
-Line(i) == rules[i].name \o " { " \o (IF rules[i].ext # "" THEN "@extend " \o rules[i].ext \o (IF rules[i].optional THEN " !optional" ELSE "") \o "; " ELSE "")
-           \o "r: " \o ToString(i) \o "; }"
+Line(i) == (IF rules[i].media # "" THEN "@media " \o rules[i].media \o " { " ELSE "") \o rules[i].name \o " { " \o (IF rules[i].ext # "" THEN "@extend " \o rules[i].ext \o (IF rules[i].optional THEN " !optional" ELSE "") \o "; " ELSE "")
+           \o "r: " \o ToString(i) \o "; }" \o (IF rules[i].media # "" THEN " }" ELSE "")
 Emit == done => PrintT(<<"CASE", ToJson([scss |-> [i \in 1..Len(rules) |-> Line(i)],
-                                         sels |-> [i \in 1..Len(rules) |-> Sel(rules[i].name)],
+                                         sels |-> [i \in 1..Len(rules) |-> Sel(rules[i].name)], medias |-> [i \in 1..Len(rules) |-> rules[i].media], crossmedia |-> CrossMedia,
                                          exts |-> Exts, compoundonly |-> CompoundOnly, missing |-> MissingTarget])>>)
 =============================================================================
